@@ -60,7 +60,8 @@ def run(ctx):
         nd = rng.choice([0, 0, 0, 2])
         r = rng.randint(1, 6)
         n = rng.randint(1, 14 if ctx.quick else 30)
-        kind = rng.choice(["alpha", "dyadic", "gauss"])
+        kind = rng.choice(["alpha", "dyadic", "gauss", "small"])
+        exact_tie = (not nd) and rng.random() < 0.06
         mk = (lambda m: gen.series_nd(rng, m, nd, kind)) if nd else (lambda m: gen.series(rng, m, kind))
         q = mk(r)
         equal = rng.random() < 0.7
@@ -68,6 +69,19 @@ def run(ctx):
         if n >= 3 and rng.random() < 0.5:
             cands[rng.randrange(n)] = list(cands[rng.randrange(n)])       # duplicate
         opts = {}
+        if exact_tie:
+            # constant query and candidates: lower bound == distance == an exactly representable number, so a user
+            # threshold equal to a distance is meaningful ("ignore distances LARGER than max_dist")
+            r = rng.choice([1, 4]) if rng.random() < 0.5 else r
+            equal = True
+            av = float(rng.randint(-3, 3))
+            q = [av] * r
+            cands = [[float(rng.randint(-6, 6))] * r for _ in range(n)]
+            if r not in (1, 4):
+                opts["inner_dist"] = "euclidean"
+            ctx.count("exact_threshold_tie_cases")
+        elif not nd and rng.random() < 0.25:
+            opts["inner_dist"] = "euclidean"
         if rng.random() < 0.5:
             opts["window"] = rng.randint(1, 7)
         if rng.random() < 0.3:
@@ -112,6 +126,12 @@ def run(ctx):
             eff = mv * r if eff is None else min(eff, mv * r)
         if eff is not None and any(abs(d - eff) <= 1e-6 * max(abs(d), abs(eff)) for d in fin):
             eff = md = mv = None
+        if exact_tie:
+            ints = [d for d in fin if float(d).is_integer() and d > 0]      # 0 means "no limit" throughout the library
+            if ints and "psi" not in opts:
+                md, mv = rng.choice(ints), None      # sqrt/square round trips are exact for these
+                eff = md
+                ctx.count("exact_threshold_tie_cases_with_threshold")
         wit = dict(query=q, candidates=[c.tolist() for c in ca], options=opts, use_lb=use_lb, use_c=use_c, max_dist=md,
                    max_value=mv, order=order, ndim=nd)
 
